@@ -487,7 +487,6 @@ contract(
     returns='ElementProxy?',
     requires=['sep(self)', 'proxies_ok(self)'],
     ensures=[
-        ('proxies_ok', 'proxies_ok(self)'),
         ('sep', 'sep(self)'),
         ('proxy_of_canonical_name',
          'implies(result is not None, result.element_list is self and '
